@@ -46,6 +46,8 @@ theorem query_local (lvl : Level) (e : Env) (l : Level) (h : query lvl e = .loca
   · cases h
   split at h
   · cases h
+  split at h
+  · cases h
   rename_i l1 hl1
   split at h
   · rename_i o ho
@@ -104,12 +106,16 @@ theorem requestTail_local (l2 : Level) (nRW : Nat) (e : Env) (l : Level)
     · cases h
     split at h
     · cases h
+    split at h
+    · cases h
     split at h <;> cases h
 
 theorem request_local (lvl : Level) (nRW : Nat) (e : Env) (l : Level) (h : request lvl nRW e = .localRead l) :
     ∃ l1, resolveAuto lvl e.voter = some l1 ∧ linStage l1 e = .ok l ∧ nRW = 0 ∧ l ≠ .strong ∧
       (l = .weak → e.isLeader = true) ∧ (l = .none → e.staleRead = false) := by
   unfold request at h
+  split at h
+  · cases h
   split at h
   · cases h
   split at h
@@ -131,6 +137,8 @@ theorem query_vialog (lvl : Level) (e : Env) (l : Level) (h : query lvl e = .via
     l = .strong ∧ e.isLeader = true ∧ e.ready = true ∧ e.apply = .ok ∧
     ∃ l1, resolveAuto lvl e.voter = some l1 ∧ linStage l1 e = .ok .strong := by
   unfold query at h
+  split at h
+  · cases h
   split at h
   · cases h
   split at h
